@@ -166,6 +166,7 @@ int __wrap_fclose(FILE* f){
 #define MAGIC_FREE 0x5645524946465245ULL
 #define CANARY 0xA5
 #define FILL_MALLOC 0xCB
+static int fill_malloc = FILL_MALLOC;   /* content of fresh malloc/realloc memory: a seam (verif_alloc_fill) */
 #define FILL_FREE 0xFF
 struct hdr {
     uint64_t magic;
@@ -260,7 +261,7 @@ static void* v_alloc(size_t size, int zero){
     if (!h) return NULL;
     h->magic = MAGIC_LIVE; h->size = size; h->serial = ++serial;
     memset(h->pad, CANARY, sizeof(h->pad));
-    memset(P(h), zero ? 0 : FILL_MALLOC, size);
+    memset(P(h), zero ? 0 : fill_malloc, size);
     memset(P(h) + size, CANARY, TAIL);
     h->prev = NULL; h->next = live_head;
     if (live_head) live_head->prev = h;
@@ -360,6 +361,7 @@ void* __wrap_realloc(void* p, size_t size){
 }
 
 EXP void verif_alloc_level(int level){ alloc_level = level; }
+EXP void verif_alloc_fill(int byte){ fill_malloc = byte & 0xff; }
 EXP int verif_alloc_get_level(void){ return alloc_level; }
 /* returns number of problems; message of the first one via verif_heap_error() */
 EXP int verif_heap_audit(void){
